@@ -176,7 +176,7 @@ def nontrivial(c, o):
 LEVEL_TEXT = ('Machine-checked Coq theorems on the parser model: for ANY list of syntactically valid messages (start line, header block, body framed by Content-Length or by any partition into '
 	'non-empty chunks with extensions, optionally with an announced trailer section) the concatenation of their octets is delivered as exactly those messages in order, each consuming exactly '
 	'its own octets, the machine idle afterwards (induction over the list); under EVERY fragmentation on the reference machine, on the machine as implemented for quiet runs, and without '
-	'any hypothesis about the run for the client machine (server: when the header hook accepts framed header sections only); isolation and truncation at every cut; the CONNECT-client '
+	'any hypothesis about the run for BOTH machines as implemented when the start lines contain no LF (valid messages are framed, so neither shortcut can fire); isolation and truncation at every cut; the CONNECT-client '
 	'configuration. Tied to /repo by model-vs-implementation evaluation in Coq of pipelines produced by an independent RFC 7230 serializer, fed whole, per octet and cut at truncation points.')
 LEVEL_NOTE = 'Known findings (recorded, excluded by the hypotheses named in the theorems): D13 unframed request followed by more octets in the same call, D48 empty reason phrase, D50 304 with Content-Length, D57 payload on GET/HEAD/TRACE.'
 TECHNIQUE = 'Coq proof on the Gallina parser model + in-Coq correspondence on independently serialised pipelines + ground-truth oracle at every truncation point'
